@@ -1,1 +1,162 @@
-/- property theorems of C01 (only theorems + non-vacuity examples live here) -/
+import Got.Lemmas.MSQueueInv
+import Got.Lemmas.MSQueueWitness
+import Got.Lemmas.MSQueueValues
+import Got.Lemmas.MSQueueLin
+import Got.Lemmas.MSQueueLinSanity
+import Got.Lemmas.MSQueueErase
+/-
+C01 — loom.Queue (Michael–Scott lock-free queue) is a linearizable FIFO under any interleaving of
+Push and Pop.
+
+Model: `Got.Model.MSQueue` — a labelled transition system whose `tau t` transition is one
+shared-memory access of loom/queue.go (one `queueLoad`/`queueCas`), with `invPush t v`/`invPop t` as
+environment actions, so `∀ acts` covers every number of goroutines, every client program and every
+interleaving.  Assumption (by typing): clients never push nil — a pushed value is a `Nat`, Pop's
+empty answer is `Res.val none`.
+-/
+open Got.Model.MSQueue Got.Spec.Lin
+
+/-- the structural invariant (list shape, head/tail positions, tail lags by at most one node,
+    thread-local snapshots, private nodes, abstract queue = replay of the log) holds in every
+    reachable state. -/
+theorem C01_inv : ∀ acts : List Act, Inv (run init acts) := inv_reachable
+
+/-- no execution reaches the nil dereference `next.value` in Pop (nor any other impossible branch). -/
+theorem C01_no_crash : ∀ (acts : List Act) (t : Nat), (run init acts).pc t ≠ .crash := by
+  intro acts t h
+  have := (inv_reachable acts).loc t
+  rw [h] at this
+  exact this
+
+/-- **LP witness.** In every execution the log — history events plus the linearisation markers
+    appended by the very steps that are the linearisation points — replays legally on the
+    sequential FIFO (see `LinWitness`). -/
+theorem C01_lp_witness : ∀ acts : List Act, LinWitness (run init acts).log := by
+  intro acts
+  obtain ⟨w, hw, _, _⟩ := (inv_reachable acts).logi.ex
+  unfold LinWitness
+  rw [hw]; rfl
+
+/-- non-vacuity: two overlapping Pushes (thread 1 links first, thread 0's CAS fails and it helps),
+    then a Pop; the log carries the markers in linearisation order. -/
+example :
+    (run init [.invPush 0 1, .tau 0, .invPush 1 2, .tau 1, .tau 1, .tau 0, .tau 0, .tau 1, .tau 1, .tau 0,
+               .tau 0, .tau 0, .tau 0, .tau 0, .tau 0, .tau 0, .tau 0, .tau 0, .tau 0,
+               .invPop 0, .tau 0, .tau 0, .tau 0, .tau 0, .tau 0]).log =
+      [.inv 0 (.push 1), .inv 1 (.push 2), .lin 1 (.push 2) .ack, .lin 0 (.push 1) .ack, .ret 0 .ack,
+       .inv 0 .pop, .lin 0 .pop (.val (some 2)), .ret 0 (.val (some 2))] := by decide
+
+/-! ### corollaries of the LP witness, stated separately -/
+
+/-- **FIFO order (and conservation).** At every instant, the values returned by Pops so far, in return
+    order, followed by the current abstract queue, are exactly the pushed values in the order in which
+    the Pushes took effect (each Push takes effect between its invocation and its response, by
+    `C01_lp_witness`). -/
+theorem C01_fifo_order : ∀ acts : List Act,
+    retVals (run init acts).log ++ absQ (run init acts).toHeap = pushedLin (run init acts).log :=
+  fun acts => rets_append_absQ (inv_reachable acts) (valinv_reachable acts)
+
+/-- **no invention.** A value returned by a Pop is the argument of an invoked Push. -/
+theorem C01_no_invention : ∀ (acts : List Act) (t v : Nat),
+    .ret t (.val (some v)) ∈ (run init acts).log → ∃ t', .inv t' (.push v) ∈ (run init acts).log := by
+  intro acts t v hm
+  obtain ⟨w, hw, _, _⟩ := (inv_reachable acts).logi.ex
+  exact no_invention hw hm
+
+/-- **no duplication.** If the arguments of the invoked Pushes are pairwise distinct, then the values
+    returned by Pops are pairwise distinct, and none of them is still in the queue. -/
+theorem C01_no_duplication : ∀ acts : List Act, (invPushVals (run init acts).log).Nodup →
+    (retVals (run init acts).log ++ absQ (run init acts).toHeap).Nodup :=
+  fun acts => rets_nodup (inv_reachable acts) (valinv_reachable acts)
+
+/-- **no loss.** At the instant a Push returns, its argument (the argument of the thread's latest
+    invocation) has been popped or is in the abstract queue — and by `C01_fifo_order` it stays in
+    `returned ++ queue` forever after. -/
+theorem C01_no_loss : ∀ (acts : List Act) (l : List LEv) (t : Nat),
+    (run init acts).log = l ++ [.ret t .ack] →
+    ∃ v, lastInv t l = some (.push v) ∧ v ∈ poppedLin l ++ absQ (run init acts).toHeap := by
+  intro acts l t hl
+  obtain ⟨w, hw, hq, _⟩ := (inv_reachable acts).logi.ex
+  rw [hl] at hw
+  rw [← hq]
+  exact no_loss hw
+
+/-- **nil only if empty.** Every Pop that returns nil contains an instant — after its invocation and
+    before its response — at which the abstract queue was empty. -/
+theorem C01_nil_only_if_empty : ∀ (acts : List Act) (l l' : List LEv) (t : Nat),
+    (run init acts).log = l ++ [.ret t (.val none)] ++ l' →
+    ∃ a b, l = a ++ b ∧ EmptyInstant t a b := by
+  intro acts l l' t hl
+  obtain ⟨w, hw, _, _⟩ := (inv_reachable acts).logi.ex
+  rw [hl] at hw
+  obtain ⟨w₁, hw₁⟩ := wrun_prefix hw
+  exact nil_only_if_empty hw₁
+
+/-- non-vacuity of `C01_nil_only_if_empty`: a Pop on the empty queue returns nil; the instant is its
+    load of `head.next`. -/
+example : (run init [.invPop 0, .tau 0, .tau 0, .tau 0, .tau 0]).log =
+    [.inv 0 .pop, .obs 0] ++ [.ret 0 (.val none)] ++ [] := by decide
+
+/-- a complete run used for non-vacuity below: Push 7 and Push 9 by two threads (thread 1's link CAS wins,
+    thread 0 retries and helps), then thread 0 pops 9. -/
+def demoRun : List Act :=
+  [.invPush 0 7, .tau 0, .invPush 1 9, .tau 1, .tau 1, .tau 0, .tau 0, .tau 1, .tau 1, .tau 0,
+   .tau 0, .tau 0, .tau 0, .tau 0, .tau 0, .tau 0, .tau 0, .tau 0, .tau 0,
+   .invPop 0, .tau 0, .tau 0, .tau 0, .tau 0, .tau 0, .tau 1]
+
+/-- non-vacuity of `C01_no_duplication` / `C01_fifo_order` / `C01_no_invention`: distinct pushes
+    `[7, 9]`, linearised in the order `[9, 7]`; the Pop returned `9`, `7` is still in the queue. -/
+example : (invPushVals (run init demoRun).log).Nodup ∧
+    invPushVals (run init demoRun).log = [7, 9] ∧
+    pushedLin (run init demoRun).log = [9, 7] ∧
+    retVals (run init demoRun).log = [9] ∧ absQ (run init demoRun).toHeap = [7] ∧
+    .ret 0 (.val (some 9)) ∈ (run init demoRun).log := by decide
+
+/-- non-vacuity of `C01_no_loss`: the log of `demoRun` ends with the response of thread 1's Push 9, whose
+    value has been popped. -/
+example : (run init demoRun).log = (run init demoRun).log.dropLast ++ [.ret 1 .ack] ∧
+    lastInv 1 (run init demoRun).log.dropLast = some (.push 9) ∧
+    9 ∈ poppedLin (run init demoRun).log.dropLast ++ absQ (run init demoRun).toHeap := by decide
+
+/-! ### linearizability (Herlihy–Wing), by composition -/
+
+/-- **LP soundness** (generic meta-theorem, independent of the queue model): a log whose markers
+    replay legally on the FIFO has a linearizable client-visible history.  The linearization keeps
+    every `lin` marker and, for each Pop that returns nil, its last `obs` marker, in log order;
+    linearised-but-unreturned operations are completed, other pending ones dropped. -/
+theorem C01_lp_sound : ∀ l : List LEv, LinWitness l → Linearizable FifoSpec (history l) :=
+  fun _ h => lp_sound h
+
+/-- **C01.** Every concurrent history of Push and Pop calls on one queue — any number of goroutines,
+    any client programs, any interleaving of their individual atomic steps — is linearizable with
+    respect to the sequential FIFO queue: it is equivalent to a legal sequential FIFO history that
+    respects the real-time order of non-overlapping calls (`Got.Spec.Lin.Linearizable`). -/
+theorem C01_linearizable : ∀ acts : List Act,
+    Linearizable FifoSpec (history (run init acts).log) :=
+  fun acts => lp_sound (C01_lp_witness acts)
+
+/-! ### sanity of the definitions -/
+
+/-- the definition of linearizability is not vacuous: a Pop that returns a value nobody pushed … -/
+theorem C01_spec_rejects_invented_value :
+    ¬ Linearizable FifoSpec [.inv 0 .pop, .ret 0 (.val (some 5))] :=
+  not_linearizable_invented
+
+/-- … and a Pop that is invoked after a Push has returned but answers nil (real-time order) are
+    rejected. -/
+theorem C01_spec_rejects_stale_empty :
+    ¬ Linearizable FifoSpec [.inv 0 (.push 1), .ret 0 .ack, .inv 1 .pop, .ret 1 (.val none)] :=
+  not_linearizable_stale_empty
+
+/-- erasure: the ghost components (`chain`, `hi`, `ti`, `log`) are never read by the real part of the
+    step function. -/
+theorem C01_ghost_erasure : ∀ (s s' : State) (a : Act), core s = core s' → core (step s a) = core (step s' a) :=
+  core_step
+
+/-- a concrete instance: the overlapping history of `demoRun` (thread 1's Push 9 overlaps thread 0's
+    Push 7 and Pop → 9) is linearizable, as `C01_linearizable` says. -/
+example :
+    history (run init demoRun).log =
+      [.inv 0 (.push 7), .inv 1 (.push 9), .ret 0 .ack, .inv 0 .pop, .ret 0 (.val (some 9)), .ret 1 .ack] ∧
+    Linearizable FifoSpec (history (run init demoRun).log) :=
+  ⟨by decide, C01_linearizable demoRun⟩
